@@ -28,6 +28,9 @@ func genPlan(rng *rand.Rand, sc *Scenario, transport string) []Step {
 		plan = append(plan, Step{At: rng.IntN(at + 1), Op: "setup"})
 	}
 	plan = append(plan, Step{At: at, Op: "play"})
+	if rng.IntN(3) == 0 {
+		plan = append(plan, Step{At: at + rng.IntN(n/10+1), Op: "replay"})
+	}
 	gateable := transport == "tcp" || transport == "udp"
 	cycles := rng.IntN(3)
 	if sc.Mode == "racy" {
@@ -44,6 +47,9 @@ func genPlan(rng *rand.Rand, sc *Scenario, transport string) []Step {
 		p1 := at + 1 + rng.IntN(n/4+1)
 		p2 := p1 + rng.IntN(n/6+1)
 		plan = append(plan, Step{At: p1, Op: "pause"}, Step{At: p2, Op: "play"})
+		if rng.IntN(3) == 0 { // PAUSE → PLAY → PLAY
+			plan = append(plan, Step{At: p2 + rng.IntN(3), Op: "replay"})
+		}
 		at = p2
 	}
 	if gateable && rng.IntN(2) == 0 && at < n {
@@ -92,25 +98,6 @@ func genChans(rng *rand.Rand, n int) []int {
 			}
 		}
 		assigned = append(assigned, c)
-	}
-	return out
-}
-
-// rawPlan: hand-written readers play once and may leave (no PAUSE).
-func rawPlan(plan []Step) []Step {
-	var out []Step
-	played := false
-	for _, st := range plan {
-		switch st.Op {
-		case "pause":
-			continue
-		case "play":
-			if played {
-				continue
-			}
-			played = true
-		}
-		out = append(out, st)
 	}
 	return out
 }
@@ -185,7 +172,6 @@ func genScenario(rng *rand.Rand, n int, allTransports bool) *Scenario {
 		if sp.Transport == "tcp" && !sc.TLS && rng.IntN(4) == 0 {
 			sp.Raw = true
 			sp.Chans = genChans(rng, len(sp.Medias))
-			sp.Plan = rawPlan(sp.Plan)
 		}
 		sc.Readers = append(sc.Readers, sp)
 	}
@@ -219,6 +205,22 @@ func genScenario(rng *rand.Rand, n int, allTransports bool) *Scenario {
 	}
 	if sc.Relay != "" {
 		sc.Pace = 1 + rng.IntN(6)
+	}
+	if sc.TLS && !sc.ArbSeq && sc.Relay == "" && rng.IntN(2) == 0 {
+		// every format wraps early, before any reader sets up (rollover counter 1 at SETUP time)
+		nf := 0
+		for _, fs := range sc.Medias {
+			nf += len(fs)
+		}
+		shift := 4*nf*40 + 200
+		sc.SRTPWrap = true
+		sc.SeqStart = 65536 - 20 - rng.IntN(20)
+		for r := range sc.Readers {
+			for i := range sc.Readers[r].Plan {
+				sc.Readers[r].Plan[i].At += shift
+			}
+		}
+		sc.N += shift
 	}
 	if sc.Relay == "udp" {
 		// A UDP reader's session must not close while the UDP publisher is active: the harness reads
@@ -409,6 +411,7 @@ func srtpFollowedWrap(seed uint64) *Scenario {
 func srtpMissedWrap(seed uint64, arb bool) *Scenario {
 	sc := &Scenario{Seed: seed, Mode: "exact", TLS: true, Cap: 256, Medias: [][]int{{96}}, N: 900, Pace: 2, NoModel: true,
 		Readers: []ReaderSpec{{Transport: "tcp", Medias: []int{0}, Plan: []Step{{At: 10, Op: "setup"}, {At: 400, Op: "play"}}}}}
+	sc.ExpectDesync = true
 	if arb {
 		sc.ArbSeq = true
 	} else {
@@ -449,6 +452,34 @@ func reorderScenario(seed uint64) *Scenario {
 		Readers: []ReaderSpec{
 			{Transport: "udp", Medias: []int{0, 1}, Plan: plan, Reorder: 150, Dup: 30, Loss: 10},
 			{Transport: "tcp", Medias: []int{1, 0}, Plan: plan},
+		}}
+}
+
+// replayScenario: PLAY again while playing, PAUSE → PLAY → PLAY, PLAY with Range - delivery goes on.
+func replayScenario(seed uint64, tls bool) *Scenario {
+	sc := &Scenario{Seed: seed, Mode: "exact", TLS: tls, Cap: 64, Medias: [][]int{{96}, {97, 98}}, N: 600, Pace: 2,
+		Readers: []ReaderSpec{
+			{Transport: "udp", Medias: []int{0, 1}, Plan: []Step{{At: 0, Op: "play"}, {At: 120, Op: "replay"},
+				{At: 250, Op: "pause"}, {At: 300, Op: "play"}, {At: 301, Op: "replay"}, {At: 420, Op: "replay"}}},
+		}}
+	if !tls {
+		sc.Readers = append(sc.Readers, ReaderSpec{Transport: "tcp", Raw: true, Medias: []int{1, 0}, Chans: []int{-1, -1},
+			Plan: []Step{{At: 0, Op: "play"}, {At: 100, Op: "replay"}, {At: 200, Op: "pause"}, {At: 300, Op: "play"},
+				{At: 301, Op: "replay"}, {At: 350, Op: "replay"}}})
+	}
+	return sc
+}
+
+// srtpLateJoin: TLS+SRTP, medias with 2-3 formats, every format's sequence number wraps (rollover
+// counter 1) BEFORE the readers set up; nothing wraps between their SETUP and their first packet.
+func srtpLateJoin(seed uint64, mode string) *Scenario {
+	join := []Step{{At: 1300, Op: "play"}}
+	return &Scenario{Seed: seed, Mode: mode, TLS: true, Cap: 256, Medias: [][]int{{96, 97}, {98, 99, 100}}, N: 2000, Pace: 2,
+		SRTPWrap: true, SeqStart: 65536 - 60,
+		Readers: []ReaderSpec{
+			{Transport: "tcp", Medias: []int{0, 1}, Plan: join},
+			{Transport: "udp", Medias: []int{1, 0}, Plan: join},
+			{Transport: "tcp", Medias: []int{1}, Plan: []Step{{At: 1200, Op: "setup"}, {At: 1500, Op: "play"}}},
 		}}
 }
 
@@ -506,6 +537,9 @@ func Run(c *corr.Ctx) {
 		runScenario(c, sc, fmt.Sprintf("channels/%d", i), st)
 	}
 	runScenario(c, reorderScenario(c.Rng.Uint64()), "udp-reorder-both-hops", st)
+	runScenario(c, replayScenario(c.Rng.Uint64(), false), "play-again", st)
+	runScenario(c, replayScenario(c.Rng.Uint64(), true), "play-again-tls", st)
+	runScenario(c, srtpLateJoin(c.Rng.Uint64(), "exact"), "srtp-join-after-wrap", st)
 	runScenario(c, srtpFollowedWrap(c.Rng.Uint64()), "srtp-wrap-followed", st)
 	runScenario(c, srtpMissedWrap(c.Rng.Uint64(), false), "srtp-wrap-missed", st)
 	runScenario(c, srtpMissedWrap(c.Rng.Uint64(), true), "srtp-arbseq-late-join", st)
